@@ -302,11 +302,19 @@ def rendered_rates_check(chk, rng):
                 continue
         if len(reacs) < 3:
             continue
+        # second network: the reactions carry database numbers (1-based, as every file numbers them) and the user replaces the rate of
+        # ONE of them by number - every other reaction still follows its own law, the named one gets the replacement
+        modified_at = None
+        if first_k == 5:
+            for i_, r_ in enumerate(reacs):
+                r_.idxfromfile = i_ + 1
+            modified_at = 2
+            want[modified_at] = "1.0e-30"
         for b in ("dense", "rosenbrock4"):
             d = chk.scratch / f"rendered-{first_k}-{b}"
             try:
                 with silenced():
-                    net = Network(reacs)
+                    net = Network(reacs, rate_modifier={modified_at + 1: "1.0e-30"}) if modified_at is not None else Network(reacs)
                     render(net, b, d)
                 got = Rendered(d, b).rates("k")
             except Exception as e:
